@@ -180,6 +180,9 @@ class WorldTok(SymVal):
     def __repr__(self): return self.name
     def __eq__(self, o): return isinstance(o, WorldTok) and o.name == self.name
     def __hash__(self): return hash(('world', self.name))
+    def sym_binop(self, it, op, other, reflected):
+        # arithmetic on a world number gives SOME world -- not the branch's fresh one
+        return WorldTok(f'({other!r} {op} {self.name})' if reflected else f'({self.name} {op} {other!r})')
     def sym_compare(self, it, op, other, reflected):
         if op == 'Eq': return self == other
         if op == 'NotEq': return not (self == other)
